@@ -353,11 +353,18 @@ func (e *t15Env) history() string {
 	return strings.Join(h, "\n")
 }
 
-// second advances the virtual clock by one second and runs the bodies of LockDB.checkTimeOut /
-// checkExpried / checkWaitRemoveLockManager (the loops that the NoCheckLoop hook switched off) for it.
+// second advances the virtual clock by one second and runs the bodies of LockDB.checkWaitRemoveLockManager /
+// checkTimeOut / checkExpried (the loops that the NoCheckLoop hook switched off) for it.
 func (e *t15Env) second() {
-	e.now++
 	d := e.db
+	// key records whose last lock went away are dropped 1..1.5 s later by a wall-clock wheel
+	// (LockDB.checkWaitRemoveLockManager): those queued during the previous second go now
+	for ti := 0; ti < int(WAIT_REMOVE_LOCK_MANAGER_QUEUE_LENGTH); ti++ {
+		for i := uint16(0); i < d.managerMaxGlocks; i++ {
+			d.checkTimeWaitRemoveLockManager(ti, i)
+		}
+	}
+	e.now++
 	d.currentTime = e.now
 	c := d.checkTimeoutTime
 	d.checkTimeoutTime = e.now + 1
@@ -371,13 +378,6 @@ func (e *t15Env) second() {
 	for ; c <= e.now; c++ {
 		for i := uint16(0); i < d.managerMaxGlocks; i++ {
 			d.checkTimeExpried(c, e.now, i, e.exQ[i])
-		}
-	}
-	// key records whose last lock went away are dropped 1..1.5 s later by a wall-clock wheel; one
-	// virtual second later they are gone in production, so the whole wheel is emptied here
-	for ti := 0; ti < int(WAIT_REMOVE_LOCK_MANAGER_QUEUE_LENGTH); ti++ {
-		for i := uint16(0); i < d.managerMaxGlocks; i++ {
-			d.checkTimeWaitRemoveLockManager(ti, i)
 		}
 	}
 }
